@@ -330,20 +330,28 @@ Proof.
   rewrite Z.min_l by (apply H; now left). apply IH. intros y Hy. apply H. now right.
 Qed.
 
-(** write_graph on a path graph whose smallest key is an end: the chain, for every length *)
+(** write_graph(..., name_attr=na) on a path graph whose smallest key is an end: the chain, for every length *)
+Theorem write_path_abstract_by : forall na sf dh k0 a0 rest,
+  NoDup (k0 :: rest_keys rest) -> (forall x, In x (rest_keys rest) -> k0 <= x) ->
+  let g := path_graph k0 a0 rest in
+  let env := mk_env sf (node_text_by na sf dh g) (edge_text g) (edge_text g) (chain_edges (k0 :: rest_keys rest)) [] in
+  write_graph_full_by na sf dh g []
+  = (t <- chain_text env None (k0 :: rest_keys rest) ;; Ok {| r_text := t; r_visit := k0 :: rest_keys rest; r_mtrace := [] |}).
+Proof.
+  intros na sf dh k0 a0 rest ND Hmin g env. unfold write_graph_full_by.
+  unfold g at 1. rewrite min_node_path by assumption. cbn [bind].
+  unfold g at 1. destruct (dfs_path k0 a0 rest ND) as [E _]. rewrite E. cbn [bind].
+  apply write_chain_transcript; [assumption|].
+  unfold g, path_graph. rewrite path_from_length. cbn [length]. unfold rest_keys. rewrite map_length. lia.
+Qed.
+(** name_attr='fragname', the default *)
 Theorem write_path_abstract : forall sf dh k0 a0 rest,
   NoDup (k0 :: rest_keys rest) -> (forall x, In x (rest_keys rest) -> k0 <= x) ->
   let g := path_graph k0 a0 rest in
   let env := mk_env sf (node_text sf dh g) (edge_text g) (edge_text g) (chain_edges (k0 :: rest_keys rest)) [] in
   write_graph_full sf dh g []
   = (t <- chain_text env None (k0 :: rest_keys rest) ;; Ok {| r_text := t; r_visit := k0 :: rest_keys rest; r_mtrace := [] |}).
-Proof.
-  intros sf dh k0 a0 rest ND Hmin g env. unfold write_graph_full.
-  unfold g at 1. rewrite min_node_path by assumption. cbn [bind].
-  unfold g at 1. destruct (dfs_path k0 a0 rest ND) as [E _]. rewrite E. cbn [bind].
-  apply write_chain_transcript; [assumption|].
-  unfold g, path_graph. rewrite path_from_length. cbn [length]. unfold rest_keys. rewrite map_length. lia.
-Qed.
+Proof. exact (write_path_abstract_by (S "fragname")). Qed.
 
 (** ------------------------------------------------------------------ the concrete chain text *)
 Definition name_attrs (nm : pystr) : attrs := [(S "fragname", VStr nm)].
@@ -364,7 +372,7 @@ Lemma node_text_path dh G pre prev k nm rest :
   node_text false dh G k = Ok (S "[#" ++ nm ++ S "]").
 Proof.
   intros -> Hk. destruct (path_from_head prev k (name_attrs nm) rest) as [adj [post ->]].
-  unfold node_text, format_node, bonding_suffix, node_attrs. rewrite gfind_app by (assumption || reflexivity).
+  unfold node_text. rewrite format_node_eq. unfold bonding_suffix, node_attrs. rewrite gfind_app by (assumption || reflexivity).
   cbn. now rewrite app_nil_r.
 Qed.
 Lemma adj_get_last k' ea prev : ~ In k' (map fst prev) -> adj_get k' (prev ++ [(k', ea)]) = Some ea.
